@@ -31,6 +31,12 @@ type Solver struct {
 	ring    []string
 	Hung    int
 	broken  bool
+	// mirror of the declarations/definitions/assertions currently in force, per scope, so that a query
+	// the incremental core cannot decide can be re-run one-shot (fresh process, tactic-based solver)
+	script         [][]string
+	OneShots       int
+	OneShotDecided int
+	SoftMs         int // incremental per-query timeout before falling back to one-shot (0 = timeout)
 }
 
 func NewSolver(kind string, timeoutMs int) (*Solver, error) {
@@ -88,6 +94,7 @@ func (s *Solver) start() error {
 	}(s.out, s.lines)
 	s.defined = []map[int32]bool{{}}
 	s.ufDone = []map[string]bool{{}}
+	s.script = [][]string{nil}
 	s.send("(set-option :print-success false)")
 	s.send("(set-option :produce-models true)")
 	if s.bin != "cvc5" {
@@ -113,6 +120,16 @@ func (s *Solver) Restart() error {
 }
 
 func (s *Solver) send(line string) {
+	if len(line) > 3 && (line[1] == 'd' || line[1] == 'a') { // define-fun / declare-* / assert
+		if len(s.script) == 0 {
+			s.script = [][]string{nil}
+		}
+		s.script[len(s.script)-1] = append(s.script[len(s.script)-1], line)
+	} else if strings.HasPrefix(line, "(push") {
+		s.script = append(s.script, nil)
+	} else if strings.HasPrefix(line, "(pop") && len(s.script) > 1 {
+		s.script = s.script[:len(s.script)-1]
+	}
 	if s.log != nil {
 		fmt.Fprintln(s.log, line)
 	}
@@ -299,9 +316,96 @@ func (s *Solver) CheckWith(ts *TermStore, extra *Term) SatResult {
 	s.define(ts, extra)
 	s.send("(push 1)")
 	s.send("(assert " + ref(extra) + ")")
+	soft := s.SoftMs > 0 && s.SoftMs < s.timeout && s.bin != "cvc5"
+	if soft {
+		s.send(fmt.Sprintf("(set-option :timeout %d)", s.SoftMs))
+	}
 	r := s.Check()
+	if soft {
+		s.send(fmt.Sprintf("(set-option :timeout %d)", s.timeout))
+	}
+	if r == Unknown && !s.broken && s.bin != "cvc5" {
+		if r2 := s.oneShot(); r2 != Unknown {
+			r = r2
+			s.Unknowns--
+			s.OneShotDecided++
+		}
+	}
 	s.send("(pop 1)")
 	return r
+}
+
+// oneShot re-runs the current assertion stack in a fresh solver process (non-incremental: z3 then
+// uses its bit-blasting tactic instead of the incremental SMT core, which decides XOR-heavy CRC
+// queries in milliseconds that the incremental core times out on).
+func (s *Solver) oneShot() SatResult {
+	r, _ := s.oneShotQ(nil)
+	return r
+}
+
+// oneShotQ: one-shot check of the current stack; with want != nil also the model value of want.
+func (s *Solver) oneShotQ(want *Term) (SatResult, uint64) {
+	t0 := time.Now()
+	s.OneShots++
+	var sb strings.Builder
+	for _, sc := range s.script {
+		for _, l := range sc {
+			sb.WriteString(l)
+			sb.WriteByte('\n')
+		}
+	}
+	sb.WriteString("(check-sat)\n")
+	if want != nil {
+		sb.WriteString("(get-value (" + ref(want) + "))\n")
+	}
+	lim := s.timeout * 3 / 1000
+	if lim < 20 {
+		lim = 20
+	}
+	cmd := exec.Command(s.bin, "-in", "-smt2", fmt.Sprintf("-T:%d", lim))
+	cmd.Stdin = strings.NewReader(sb.String())
+	out, _ := cmd.Output()
+	s.Time += time.Since(t0)
+	res := Unknown
+	var val uint64
+	for _, line := range strings.Split(string(out), "\n") {
+		line = strings.TrimSpace(line)
+		switch {
+		case strings.HasPrefix(line, "(error"):
+			if res == Unsat {
+				continue // get-value after unsat
+			}
+			return Unknown, 0
+		case line == "sat":
+			res = Sat
+		case line == "unsat":
+			res = Unsat
+		case want != nil && res == Sat && strings.HasPrefix(line, "(("):
+			toks := tokenize(line)
+			if len(toks) >= 4 {
+				val, _ = parseValue(toks, 3, want.Sort)
+			}
+		}
+	}
+	return res, val
+}
+
+// CheckValue: satisfiability of the current stack and a model value of t (t already defined);
+// falls back to a one-shot run when the incremental core gives up.
+func (s *Solver) CheckValue(t *Term) (SatResult, uint64) {
+	r := s.Check()
+	if r == Sat {
+		return r, s.TermValue(t)
+	}
+	if r == Unknown && !s.broken && s.bin != "cvc5" {
+		r2, v := s.oneShotQ(t)
+		if r2 != Unknown {
+			s.Unknowns--
+			s.OneShotDecided++
+		}
+		return r2, v
+	}
+	return r, 0
 }
 
 // Values reads the model values of the given variables (after a Sat check).
@@ -474,3 +578,67 @@ func parseValue(toks []string, j int, sort Sort) (uint64, int) {
 
 // Broken reports that the solver process was lost (hang watchdog or crash); Restart before reuse.
 func (s *Solver) Broken() bool { return s.broken }
+
+// CheckModel: satisfiability of the current stack and the model values of vars (already declared);
+// falls back to a one-shot run when the incremental core gives up.
+func (s *Solver) CheckModel(vars []*Term) (SatResult, map[string]uint64) {
+	r := s.Check()
+	if r == Sat {
+		return r, s.Values(vars)
+	}
+	if r != Unknown || s.broken || s.bin == "cvc5" {
+		return r, nil
+	}
+	t0 := time.Now()
+	s.OneShots++
+	var sb strings.Builder
+	sb.WriteString("(set-option :produce-models true)\n")
+	for _, sc := range s.script {
+		for _, l := range sc {
+			sb.WriteString(l)
+			sb.WriteByte('\n')
+		}
+	}
+	sb.WriteString("(check-sat)\n")
+	const chunk = 200
+	nchunks := 0
+	for i := 0; i < len(vars); i += chunk {
+		j := i + chunk
+		if j > len(vars) {
+			j = len(vars)
+		}
+		sb.WriteString("(get-value (")
+		for _, v := range vars[i:j] {
+			sb.WriteString(v.Name + " ")
+		}
+		sb.WriteString("))\n")
+		nchunks++
+	}
+	lim := s.timeout * 3 / 1000
+	if lim < 20 {
+		lim = 20
+	}
+	cmd := exec.Command(s.bin, "-in", "-smt2", fmt.Sprintf("-T:%d", lim))
+	cmd.Stdin = strings.NewReader(sb.String())
+	out, _ := cmd.Output()
+	s.Time += time.Since(t0)
+	txt := string(out)
+	nl := strings.Index(txt, "\n")
+	if nl < 0 {
+		return Unknown, nil
+	}
+	first := strings.TrimSpace(txt[:nl])
+	if first == "unsat" {
+		s.Unknowns--
+		s.OneShotDecided++
+		return Unsat, nil
+	}
+	if first != "sat" || strings.Contains(txt, "(error") {
+		return Unknown, nil
+	}
+	res := map[string]uint64{}
+	parseValues(txt[nl+1:], vars, res)
+	s.Unknowns--
+	s.OneShotDecided++
+	return Sat, res
+}
